@@ -16,7 +16,7 @@ TRUSTED = ["sqlite MIN/MAX aggregates, JOIN, DISTINCT, ORDER BY on text (modelle
 LEANCHECKER_MODULES = ["GffProofs.Props.C03"]
 
 
-def oracle(recs, db, disG, disT, sub, res, lines, cfgdesc):
+def oracle(recs, db, disG, disT, sub, res, lines, cfgdesc, gkey="gene_id", tkey="transcript_id"):
     inp = {"lines": lines, "config": cfgdesc}
     rows = dbside.rows_of(db)
     byid = {}
@@ -61,6 +61,10 @@ def oracle(recs, db, disG, disT, sub, res, lines, cfgdesc):
                 assert f.featuretype == "transcript"
             except Exception as ex:
                 res.oracle_failures.append(("derived transcript not retrievable by its id: %r" % ex, dict(inp, id=t)))
+            ga = got[0]["attributes"]
+            if ga.get(tkey) != [t] or ga.get(gkey) != [gene_of[t]]:
+                res.oracle_failures.append(("the derived transcript stored under %r does not carry that transcript's ids" % t,
+                                            dict(inp, id=t, attributes=ga)))
     for g, exs in gx.items():
         got = byid.get(g, [])
         if g in explicit_g:
@@ -122,16 +126,30 @@ def run(ctx):
                 "combinations, custom transcript/gene keys and subfeature type. non-trivial = distinct (file, flags) with "
                 ">= 1 transcript owning exons")
     cmds, exp, tags = [], [], []
-    n = 120 if not ctx.thorough else 1500
+    n = 200 if not ctx.thorough else 2000
+    # minimised past failures run first (corpus)
+    corpus = [
+        # D21: an explicit transcript line `a` and another transcript called `a_1`
+        [dict(ftype="transcript", gene="G1", transcript="a", start=1, end=100, seqid="chr1", strand="+"),
+         dict(ftype="exon", gene="G1", transcript="a", start=1, end=100, seqid="chr1", strand="+"),
+         dict(ftype="exon", gene="G0", transcript="a_1", start=500, end=600, seqid="chr1", strand="+")],
+        [dict(ftype="exon", gene="G0", transcript="G1_1", start=500, end=600, seqid="chr1", strand="+"),
+         dict(ftype="gene", gene="G1", transcript=None, start=1, end=100, seqid="chr1", strand="+"),
+         dict(ftype="exon", gene="G1", transcript="t", start=1, end=100, seqid="chr1", strand="+")],
+    ]
     for i in range(n):
-        explicit = r.random() < 0.4
+        explicit = r.random() < 0.5
         recs = gen_db.rand_gtf_forest(r, explicit=explicit)
-        if r.random() < 0.6:
+        if i < len(corpus):
+            recs, explicit = corpus[i], True
+        elif r.random() < 0.6:
             r.shuffle(recs)
         if not recs:
             continue
         disG, disT = r.random() < 0.3, r.random() < 0.3
         custom = r.random() < 0.2
+        if i < len(corpus):
+            disG = disT = custom = False
         gkey, tkey, sub = ("gid", "tid", "CDS") if custom else ("gene_id", "transcript_id", "exon")
         idspec = dbside.IdSpec() if not custom else dbside.IdSpec("D", table={"gene": [("a", gkey)], "transcript": [("a", tkey)]})
         cfg = dbside.Cfg(idspec=idspec, disG=disG, disT=disT, tkey=tkey, gkey=gkey, sub=sub)
@@ -147,7 +165,7 @@ def run(ctx):
             continue
         if any(x["ftype"] == sub and x["transcript"] for x in recs):
             res.nontriv((tuple(lines), disG, disT))
-        oracle(recs, db, disG, disT, sub, res, lines, cfg.describe())
+        oracle(recs, db, disG, disT, sub, res, lines, cfg.describe(), gkey, tkey)
         cmds.append("dump"); exp.append(dbside.dump(db)); tags.append(("tables after GTF import", repr((lines, cfg.describe()))))
         if len(res.samples) < 2:
             res.sample({"lines": lines, "config": cfg.describe()})
@@ -166,7 +184,7 @@ def run(ctx):
                                 sorted(d["relations"]), d["pauto"], d["dialect"])
                     same = canon(a) == canon(b)
                 if not same:
-                    res.corr_disagreements.append((comp, inp[:900], m[:900], e[:900]))
+                    res.corr_disagreements.append((comp, inp[:3000], m[:200000], e[:200000]))
             elif m != e:
                 res.corr_disagreements.append((comp, inp[:900], m[:300], e[:300]))
     res.assumptions = ["a transcript_id belongs to one gene_id", "subfeature lines have integer coordinates",
